@@ -1,5 +1,5 @@
 //! Hand-written calibration programs.  `h_*` are well-formed (each is also described as a
-//! HydroProg term in spec/HydroProg/hand_terms.json); `n_*` are deliberately ill-formed in the one
+//! HydroProg term in tools/gen_hydro_progs.py, HAND_TERMS); `n_*` are deliberately ill-formed in the one
 //! way Rust's types cannot see (a forward reference completed with a stream that depends on it
 //! synchronously) -- the generator is documented to reject those.
 use hydro_lang::live_collections::stream::{ExactlyOnce, NoOrder, TotalOrder};
